@@ -608,9 +608,13 @@ func (p *Proc) evalAddrOf(ec *ectx, x *ast.UnaryExpr) Val {
 		var obj types.Object
 		if ec.info != nil {
 			obj = ec.info.Uses[y]
+		} else if ec.spec {
+			obj = p.lookupName(ec, y.Name, ec.pos)
 		}
 		if o, ok := obj.(*types.Var); ok && p.boxed[o] {
-			return Val{T: ec.st.vars[o], Typ: types.NewPointer(o.Type())}
+			if a, ok := ec.st.vars[o]; ok {
+				return Val{T: a, Typ: types.NewPointer(o.Type())}
+			}
 		}
 	}
 	p.failf(x, "unsupported address-of expression")
